@@ -135,7 +135,9 @@ func TestDecodeTotalBounded(t *testing.T) {
 					}
 					// one-directional: a larger over-long length may lead to an earlier rejection (less work), never to
 					// more allocation, because the work a correct decoder does is bounded by the bytes it can consume
-					if int64(alloc2)-int64(alloc) > allocIndependenceSlack {
+					// (the slack grows with the input: the two inputs may be rejected at different fields, and what was decoded
+					// before the rejection - e.g. a 64 KiB string of a prefix-capacity test value - is copied legitimately)
+					if int64(alloc2)-int64(alloc) > allocIndependenceSlack+int64(len(input)) {
 						ex["input_16x"] = hex.EncodeToString(wide)
 						ex["allocated"] = []uint64{alloc, alloc2}
 						violation(rt, check, c, ex, "allocation depends on an over-long length field: %d bytes for L, %d bytes for 16L", alloc, alloc2)
